@@ -34,6 +34,18 @@ func VerifShutdownPark(i *InMemCollector, w int) chan struct{} {
 	return ch
 }
 
+// VerifShutdownParkOr is VerifShutdownPark, but gives up when `other` is closed first (the worker is
+// blocked somewhere inside a pass and will not come back to its select).
+func VerifShutdownParkOr(i *InMemCollector, w int, other <-chan struct{}) (chan struct{}, bool) {
+	ch := make(chan struct{})
+	select {
+	case i.workers[w].pause <- ch:
+		return ch, true
+	case <-other:
+		return nil, false
+	}
+}
+
 func VerifShutdownQueueLens(i *InMemCollector, w int) (incoming, fromPeer int) {
 	return len(i.workers[w].incoming), len(i.workers[w].fromPeer)
 }
